@@ -2683,6 +2683,47 @@ async def release_scenario(rig: Rig, case, labels) -> bool:
                          'release:open-not-requested',
                          'direct-tcpip open did not reach the server')
 
+    if case.get('early_abort') and not case.get('open_inflight') and \
+            any(k == 'local_port' for k, *_ in made):
+        # the originating connection is reset while the server is still
+        # connecting the destination: "closing either end closes both" -
+        # whatever the server connects afterwards has to be closed, and no
+        # channel may stay behind
+        labels.add('origin-reset-before-confirm')
+        _, _, awhere, _ = [m for m in made if m[0] == 'local_port'][0]
+        rig.open_gate = asyncio.Event()
+        nreq, nb0, done0 = len(rig.requests), len(rig.b_ends), rig.open_done
+        chans0 = len(rig.conn._channels)    # pylint: disable=protected-access
+        early = await rig.connect_a(awhere, 'E')
+        early.write(pat(1, 0, 100))
+        await rig.expect(lambda: len(rig.requests) > nreq, 'relay',
+                         'release:early-open-not-requested',
+                         'direct-tcpip open did not reach the server')
+        early.abort()
+
+        for _ in range(3):
+            await rig.probe()
+
+        rig.open_gate.set()
+        await rig.expect(lambda: rig.open_done > done0, 'release',
+                         'release:early-abort:never-finished',
+                         'the server-side open request never finished',
+                         poll=True)
+        rig.open_gate = None
+        await rig.expect(lambda: all(e.eof or e.lost
+                                     for e in rig.b_ends[nb0:]),
+                         'close-both',
+                         'release:early-abort:destination-left-open',
+                         'the originating socket was reset before the '
+                         'channel was confirmed; the destination connected '
+                         'for it afterwards stays open', poll=True)
+        await rig.expect(
+            lambda: len(rig.conn._channels) <= chans0,  # noqa
+            'release', 'release:early-abort:channel-left-open',
+            lambda: 'the originating socket was reset before the channel '
+            'was confirmed; %d channels stay open on the client connection' %
+            (len(rig.conn._channels) - chans0), poll=True)  # noqa
+
     half = None
 
     if case.get('socks_half') and any(k == 'socks' for k, *_ in made):
@@ -2846,6 +2887,7 @@ def release_strategy(tier: str):
         'inflight': pick([0, 0, 1, 2]),
         'open_inflight': pick([False, False, True]),
         'socks_half': pick([False, True]),
+        'early_abort': pick([False, True]),
         'listen_inflight': pick([False, False, True]),
         'end': pick(['close', 'abort', 'sabort', 'sclose',
                                 'cut']),
@@ -3165,6 +3207,7 @@ FAMILIES = [
                      ['active', 'explicit-close', 'survives-listener-close',
                       'loss-in-flight', 'open-in-flight',
                       'listen-in-flight', 'socks-half-negotiated',
+                      'origin-reset-before-confirm',
                       'end-close', 'end-abort', 'end-sabort', 'end-cut']},
            case_timeout=120),
     Family('interop', run_interop, enumerate=interop_cases,
